@@ -157,6 +157,7 @@ def main(argv=None):
                sym_time=0.0, validated=0, nontrivial=0)
     violations, inconclusive, errors, val_errors, samples, notes, functions = [], [], [], [], [], [], set()
     twins_run = twins_ok = 0
+    twin_fail = []
     for r in results:
         for k in agg:
             agg[k] += getattr(r, k)
@@ -173,6 +174,8 @@ def main(argv=None):
         if r.twin is not None:
             twins_run += 1
             twins_ok += bool(r.twin)
+            if not r.twin:
+                twin_fail.append((r.item, [nt for nt in r.notes if nt.startswith("twin perturbed")]))
         samples.extend(r.samples[:6])
         for nt in r.notes:
             if nt not in notes and not nt.startswith("twin perturbed"):
@@ -240,6 +243,8 @@ def main(argv=None):
             rc = 2
         if twins_run and twins_ok < twins_run:
             print(f"HARNESS-ERROR property={prop_id} reachability twin not violated in {twins_run - twins_ok}/{twins_run} items")
+            for it, nts in twin_fail[:5]:
+                print(f"  item={it} {nts}")
             rc = 2
         if n == 0 or agg["obligations"] == 0:
             print(f"HARNESS-ERROR property={prop_id} no obligations generated")
